@@ -3,6 +3,7 @@
 package main
 
 import (
+	"encoding/base64"
 	"time"
 	"encoding/json"
 	"fmt"
@@ -162,6 +163,7 @@ func propC04(r *Run) {
 				{"basic", !strings.Contains(u, ":") && u != "", "user without ':'", u, want},
 				{"api", u != "" && pw != "" && utf8.ValidString(pw) && utf8.ValidString(u), "JSON carries Unicode strings; non-empty fields", u, want},
 				{"api-incomplete", utf8.ValidString(u) && u != "", "a login body without a password (or without a user name) submits no credentials: deny", u, false},
+				{"basic-no-credentials", true, "a request without (usable) basic-auth credentials submits nothing: deny", u, false},
 				{"cli", u != "" && pw != "" && !strings.HasPrefix(pw, "-") && !strings.HasPrefix(u, "-") && !strings.Contains(pw, "\x00"), "non-empty NUL-free arguments not starting with '-'", u, want},
 			}
 			var verdicts []string
@@ -179,6 +181,10 @@ func propC04(r *Run) {
 					}
 				} else {
 					c := &Call{Kind: "authenticate", Via: f.via, Agent: a.idx, User: f.user, PW: pw}
+					if f.via == "basic-no-credentials" {
+						c.Via = "basic"
+						c.Raw = []string{"no-header", "Basic", "Basic !!!not-base64!!!", "Bearer " + base64.StdEncoding.EncodeToString([]byte(f.user+":"+stored[u])), "Basic " + base64.StdEncoding.EncodeToString([]byte(f.user)), "basic"}[k%6]
+					}
 					if f.via == "api-incomplete" {
 						uj, _ := json.Marshal(f.user)
 						c.Via = "api"
